@@ -193,8 +193,8 @@ func init() {
 			after := 20 + rng.Intn(20)
 			alignSnapshots(&p, rng, after)
 			p.Blocks = after + 144 + 3 + rng.Intn(10)
-			if tier == "thorough" && rng.Intn(3) == 0 {
-				p.Blocks += 144
+			if rng.Intn(4) == 0 || (tier == "thorough" && rng.Intn(2) == 0) {
+				p.Blocks += 144 // a third snapshot: the "previous" snapshot must really be the previous one
 			}
 			p.TxMean = 1.2
 			p.PConv = 0.5
